@@ -677,9 +677,9 @@ func Variants(p *Program) []Variant {
 	return vs
 }
 
-// Apply returns a renumbered clone of the base program with the variant applied, and the id of the inserted exit
-// statement (0 for non-exit variants).
-func Apply(p *Program, v Variant) (*Program, int) {
+// Apply returns a renumbered clone of the base program with the variant applied, and the inserted exit statement
+// (nil for non-exit variants; its ID is valid after the last Number() call).
+func Apply(p *Program, v Variant) (*Program, *Node) {
 	q := p.Clone()
 	q.Number() // same numbering as p (clone preserves order)
 	var ins *Node
@@ -722,8 +722,5 @@ func Apply(p *Program, v Variant) (*Program, int) {
 		}
 	}
 	q.Number()
-	if ins != nil {
-		return q, ins.ID
-	}
-	return q, 0
+	return q, ins
 }
